@@ -224,3 +224,49 @@ def start_sweep():  # noqa: ANN201
                                             "cancel", "s1" if target == "caller" else "g1"]}]  # fmt: skip
 
                                     yield _p(cfg, root, agents, "fam:start_sweep")
+
+
+def deadline_nests():  # noqa: ANN201
+    """exhaustive: nests of <= 3 deadline scopes x shields x deadlines from a 6-point grid
+    placed before / between / after 1-3 sleeps of 1 s; variants with a reassignment"""
+    grid = [0, 0.5, 1, 1.5, 2.5, None]
+    for cfg in CFGS:
+        for depth in (1, 2, 3):
+            for dls in I.product(grid, repeat=depth):
+                for shields in I.product([False, True], repeat=depth):
+                    if depth == 3 and sum(shields) > 1:
+                        continue
+
+                    for nsleep in (1, 2, 3):
+                        if depth == 3 and nsleep == 2:
+                            continue
+
+                        for variant in ("plain", "helpers", "reassign"):
+                            if variant == "reassign" and depth > 2:
+                                continue
+
+                            body: list = [["probe"]]
+                            for _ in range(nsleep):
+                                body += [["sleep", 1], ["probe"]]
+
+                            for i in reversed(range(depth)):
+                                sid = f"s{i + 1}"
+                                if variant == "helpers":
+                                    helper = ("fail_after", "move_on_after", "fail_at")[i % 3]
+                                    sid = ("f" if helper.startswith("fail") else "m") + str(i + 1)
+                                    body = [["tscope", sid, helper, dls[i], shields[i],
+                                             body + [["cp", 1]]], ["probe"]]  # fmt: skip
+                                else:
+                                    body = [["scope", sid, shields[i], dls[i],
+                                             body + [["cp", 1]]], ["probe"]]  # fmt: skip
+
+                            agents = []
+                            if variant == "reassign":
+                                for new in (0.25, 2, None, -1):
+                                    agents = [{"t": 0.75, "place": "after",
+                                               "do": ["deadline", "s1", new]}]  # fmt: skip
+                                    yield _p(cfg, [["catch_then", body, [["cp", 1]]], ["sleep", 0.5]],
+                                             agents, "fam:deadline_nests")  # fmt: skip
+                            else:
+                                yield _p(cfg, [["catch_then", body, [["cp", 1]]], ["sleep", 0.5]],
+                                         agents, "fam:deadline_nests")  # fmt: skip
